@@ -414,3 +414,45 @@ def in_tx_history(w0: int, w1: int, w2: int, fail1: bool, stale: bool) -> bool:
     cov.done('in_tx')
     # the compiler was handed the state the caller's pickled state denotes
     return tag == 'in_tx' and cstate == _real_pickle.loads(use)
+
+
+def in_tx_two_history(wa: int, wb: int, t1: int, w1: int, f1: bool, t2: int, w2: int, f2: bool,
+                      t3: int, w3: int, f3: bool) -> bool:
+    """Two transactions on two databases share the workers: A starts on worker wa (db 'a'), B on worker wb
+    (db 'b', a different user schema); then three compile_in_tx calls, each for transaction t_i on worker
+    w_i, optionally failing in the compiler.  Every call must hand the compiler the state that the caller's
+    pickled state denotes - in particular after another transaction's *failed* call on the same worker."""
+    pool = Pool()
+    truth = Truth()
+    truth.set('b', 'us', US[1])
+    pool.workers[1].mod.COMPILER.state_serial = 100      # states made by the two workers are distinguishable
+    held = {}
+    for tx, db, wi in (('A', 'a', wa), ('B', 'b', wb)):
+        pool.pick = 0 if wi == 0 else 1
+        _units, st, _ = drive(pool.compile(db, truth.db[db]['us'], truth.glob['gs'], truth.db[db]['rc'],
+                                           truth.db[db]['dc'], truth.glob['sc'], 'request'))
+        held[tx] = st
+    if _real_pickle.loads(held['A']) == _real_pickle.loads(held['B']):
+        return True                                      # (cannot happen: serial offsets differ)
+    for ti, wi, fail in ((t1, w1, f1), (t2, w2, f2), (t3, w3, f3)):
+        tx, db = ('A', 'a') if ti == 0 else ('B', 'b')
+        pool.pick = 0 if wi == 0 else 1
+        w = pool.workers[pool.pick]
+        n = len(w.mod.COMPILER.calls)
+        use = held[tx]
+        w.mod.COMPILER.fail = bool(fail)
+        try:
+            _units, st, _ = drive(pool.compile_in_tx(db, truth.db[db]['us'], 1, use, 0, 'request'))
+            held[tx] = st
+        except CompileError:
+            pass
+        finally:
+            w.mod.COMPILER.fail = False
+        cov.hit('step')
+        if len(w.mod.COMPILER.calls) <= n:
+            return False
+        tag, cstate = w.mod.COMPILER.calls[n]
+        if tag != 'in_tx' or cstate != _real_pickle.loads(use):
+            return False
+    cov.done('in_tx_two')
+    return True
